@@ -199,9 +199,7 @@ func (c *regexpSimplifyChecker) walk(e syntax.Expr) {
 			c.score++
 		} else {
 			out.WriteString("[^")
-			for _, e := range e.Args {
-				c.walk(e)
-			}
+			c.walkCharClassArgs(e.Args)
 			out.WriteString("]")
 		}
 
@@ -212,9 +210,7 @@ func (c *regexpSimplifyChecker) walk(e syntax.Expr) {
 			c.score++
 		} else {
 			out.WriteString("[")
-			for _, e := range e.Args {
-				c.walk(e)
-			}
+			c.walkCharClassArgs(e.Args)
 			out.WriteString("]")
 		}
 
@@ -266,6 +262,17 @@ func (c *regexpSimplifyChecker) hasCapture(e syntax.Expr) bool {
 		}
 	}
 	return false
+}
+
+func (c *regexpSimplifyChecker) walkCharClassArgs(args []syntax.Expr) {
+	for i, e := range args {
+		if e.Op == syntax.OpCharRange && i+1 < len(args) && args[i+1].Value == "-" {
+			// `[a-c-z]`: the expanded range would end right before the `-` and form a new range `c-z`.
+			c.out.WriteString(e.Value)
+			continue
+		}
+		c.walk(e)
+	}
 }
 
 func (c *regexpSimplifyChecker) walkGroup(g syntax.Expr) {
